@@ -56,6 +56,8 @@ type syFinal struct {
 	St      []string `json:"st"`
 	Tip     int      `json:"tip"`
 	BestOff int      `json:"bestoff"`
+	Best    []int    `json:"best"`
+	Conv    bool     `json:"conv"`
 	Banned  []int    `json:"banned"`
 	Why     string   `json:"why"`
 }
@@ -583,15 +585,30 @@ func opSync() error {
 			// pending is exact; otherwise the prediction is "converges iff the as-designed engine does" and is computed by TLC
 			// in the `final` record of the behaviour (see MC_Sync FinalObs)
 			if b.Final != nil {
-				bo := b.Final.BestOff
-				if bo > 0 && b.Final.St[bo] == "L" {
-					res.Stats["outcome:spec-converges"]++
-					if gotSt[bo] != "L" {
-						miss(len(b.Hist), "sync-outcome", fmt.Sprintf("the store ends with the best offered block %d on the longest chain (store %v)", bo, b.Final.St), fmt.Sprintf("%v tip %d", gotSt, gotTip))
+				// C06's outcome in the statement's terms: every greatest-work chain offered by a connected node is stored and
+				// the reported tip has at least that work (unit work: work = height)
+				hOf := func(x int) int {
+					h := 0
+					for x > 0 {
+						x = b.Scn.Par[x-1]
+						h++
 					}
-				} else if bo > 0 {
+					return h
+				}
+				gotConv := true
+				for _, bo := range b.Final.Best {
+					if gotSt[bo] == "-" || hOf(gotTip) < hOf(bo) {
+						gotConv = false
+					}
+				}
+				if len(b.Final.Best) > 0 && b.Final.Conv {
+					res.Stats["outcome:spec-converges"]++
+					if !gotConv {
+						miss(len(b.Hist), "sync-outcome", fmt.Sprintf("the store ends holding the best offered chain(s) %v with a tip of at least that work (store %v)", b.Final.Best, b.Final.St), fmt.Sprintf("%v tip %d", gotSt, gotTip))
+					}
+				} else if len(b.Final.Best) > 0 {
 					res.Stats["outcome:spec-does-not-converge"]++
-					if gotSt[bo] == "L" {
+					if gotConv {
 						res.Stats["outcome:better-than-spec"]++
 					} else {
 						res.Stats["finding-witness:"+b.Final.Why]++
